@@ -46,6 +46,10 @@ type Walk struct {
 	// EdgeOK says whether the edge from b to b.Succs[k] may be followed (nil = all).
 	EdgeOK func(b *ssa.BasicBlock, k int) bool
 	// NoRecoverBlock: do not treat fn.Recover as reachable (default: ignored anyway).
+	// SeedB/SeedK: the search starts at the head of SeedB.Succs[SeedK] having come over that edge
+	// (what the edge establishes about repeated conditions and phis is known at the start).
+	SeedB *ssa.BasicBlock
+	SeedK int
 }
 
 // Path is a witness: the blocks walked and the instruction reached.
@@ -65,6 +69,7 @@ func (wk *Walk) Find(start Loc) *Path {
 	type node struct {
 		b      *ssa.BasicBlock
 		env    phiEnv
+		lits   litEnv
 		parent *node
 	}
 	visited := map[string]bool{}
@@ -88,7 +93,12 @@ func (wk *Walk) Find(start Loc) *Path {
 		return &Path{Blocks: bs, Hit: hit}
 	}
 	tested := testedPhis(start.B.Parent())
+	rep := repeatedConds(start.B.Parent())
 	root := &node{b: start.B}
+	if wk.SeedB != nil {
+		root.lits, _ = litEnv(nil).follow(wk.SeedB, wk.SeedK, rep)
+		root.env = phiEnv(nil).enter(wk.SeedB, start.B, tested)
+	}
 	hit, blocked := scan(start.B, start.I)
 	if hit != nil {
 		return mk(root, hit)
@@ -105,13 +115,17 @@ func (wk *Walk) Find(start Loc) *Path {
 			if deadEdge(n.b, k) || (dec >= 0 && k != dec) || (wk.EdgeOK != nil && !wk.EdgeOK(n.b, k)) {
 				continue
 			}
+			lits, contradicted := n.lits.follow(n.b, k, rep)
+			if contradicted {
+				continue
+			}
 			env := n.env.enter(n.b, s, tested)
-			key := itoa(s.Index) + "|" + env.key()
+			key := itoa(s.Index) + "|" + env.key() + "|" + lits.key()
 			if visited[key] {
 				continue
 			}
 			visited[key] = true
-			c := &node{b: s, env: env, parent: n}
+			c := &node{b: s, env: env, lits: lits, parent: n}
 			hit, blocked := scan(s, 0)
 			if hit != nil {
 				return mk(c, hit)
@@ -129,8 +143,9 @@ func (wk *Walk) Find(start Loc) *Path {
 func (wk *Walk) ReachableInstrs(start Loc) []ssa.Instruction {
 	var out []ssa.Instruction
 	type node struct {
-		b   *ssa.BasicBlock
-		env phiEnv
+		b    *ssa.BasicBlock
+		env  phiEnv
+		lits litEnv
 	}
 	visited := map[string]bool{}
 	emitted := map[*ssa.BasicBlock]bool{}
@@ -150,9 +165,15 @@ func (wk *Walk) ReachableInstrs(start Loc) []ssa.Instruction {
 		return true
 	}
 	tested := testedPhis(start.B.Parent())
+	rep := repeatedConds(start.B.Parent())
 	var queue []node
 	if scan(start.B, start.I) {
-		queue = append(queue, node{b: start.B})
+		n0 := node{b: start.B}
+		if wk.SeedB != nil {
+			n0.lits, _ = litEnv(nil).follow(wk.SeedB, wk.SeedK, rep)
+			n0.env = phiEnv(nil).enter(wk.SeedB, start.B, tested)
+		}
+		queue = append(queue, n0)
 	}
 	for len(queue) > 0 {
 		n := queue[0]
@@ -162,18 +183,170 @@ func (wk *Walk) ReachableInstrs(start Loc) []ssa.Instruction {
 			if deadEdge(n.b, k) || (dec >= 0 && k != dec) || (wk.EdgeOK != nil && !wk.EdgeOK(n.b, k)) {
 				continue
 			}
+			lits, contradicted := n.lits.follow(n.b, k, rep)
+			if contradicted {
+				continue
+			}
 			env := n.env.enter(n.b, s, tested)
-			key := itoa(s.Index) + "|" + env.key()
+			key := itoa(s.Index) + "|" + env.key() + "|" + lits.key()
 			if visited[key] {
 				continue
 			}
 			visited[key] = true
 			if scan(s, 0) {
-				queue = append(queue, node{s, env})
+				queue = append(queue, node{s, env, lits})
 			}
 		}
 	}
 	return out
+}
+
+// litEnv: outcomes of conditions that the function tests more than once (the same canonical
+// condition over parameters and fields that the function never stores to), remembered along a
+// path: the second test of `cfg.CA != ""` cannot come out the other way.
+type litEnv []string // sorted "cond=T" / "cond=F"
+
+func (e litEnv) key() string { return strings.Join(e, ";") }
+
+func (e litEnv) follow(b *ssa.BasicBlock, k int, rep map[*ssa.BasicBlock]string) (litEnv, bool) {
+	cond, ok := rep[b]
+	if !ok {
+		return e, false
+	}
+	want := cond + "=T"
+	other := cond + "=F"
+	if k == 1 {
+		want, other = other, want
+	}
+	for _, x := range e {
+		if x == other {
+			return e, true
+		}
+		if x == want {
+			return e, false
+		}
+	}
+	out := append(append(litEnv(nil), e...), want)
+	sort.Strings(out)
+	return out, false
+}
+
+var repeatedCondsCache = map[*ssa.Function]map[*ssa.BasicBlock]string{}
+
+// repeatedConds: blocks of fn whose branch condition (in canonical form) is tested by another
+// block as well, and only mentions parameters, constants and fields fn never stores to.
+func repeatedConds(fn *ssa.Function) map[*ssa.BasicBlock]string {
+	if m, ok := repeatedCondsCache[fn]; ok {
+		return m
+	}
+	out := map[*ssa.BasicBlock]string{}
+	repeatedCondsCache[fn] = out
+	ctx := &ExprCtx{}
+	by := map[string][]*ssa.BasicBlock{}
+	for _, b := range fn.Blocks {
+		if len(b.Instrs) == 0 {
+			continue
+		}
+		iff, ok := b.Instrs[len(b.Instrs)-1].(*ssa.If)
+		if !ok {
+			continue
+		}
+		if !pureCond(iff.Cond, 0) {
+			continue
+		}
+		s := ctx.Expr(iff.Cond)
+		by[s] = append(by[s], b)
+	}
+	// fields stored in fn (or its closures) invalidate conditions that mention them
+	stored := map[string]bool{}
+	for _, f := range withClosures(fn) {
+		eachInstr(f, func(in ssa.Instruction) {
+			if st, ok := in.(*ssa.Store); ok {
+				if fa, ok := st.Addr.(*ssa.FieldAddr); ok {
+					stored["."+fieldAddrName(fa)] = true
+				}
+			}
+		})
+	}
+	for s, bs := range by {
+		if len(bs) < 2 {
+			continue
+		}
+		bad := false
+		for f := range stored {
+			if strings.Contains(s, f) {
+				bad = true
+			}
+		}
+		if bad {
+			continue
+		}
+		for _, b := range bs {
+			out[b] = s
+		}
+	}
+	return out
+}
+
+// pureCond: the condition is built from parameters, constants, field reads, len/cap and
+// comparisons - nothing whose value can differ between two evaluations in one activation.
+func pureCond(v ssa.Value, d int) bool {
+	if d > 8 {
+		return false
+	}
+	switch x := v.(type) {
+	case *ssa.Const, *ssa.Parameter:
+		return true
+	case *ssa.BinOp:
+		return pureCond(x.X, d+1) && pureCond(x.Y, d+1)
+	case *ssa.UnOp:
+		if x.Op == token.MUL {
+			// a load: of a field of a parameter / spilled parameter
+			switch a := x.X.(type) {
+			case *ssa.FieldAddr:
+				return pureAddr(a.X, d+1)
+			case *ssa.Alloc:
+				sts := storesTo(a.Parent(), a)
+				return len(sts) == 1 && pureCond(sts[0].Val, d+1)
+			}
+			return false
+		}
+		return pureCond(x.X, d+1)
+	case *ssa.Field:
+		return pureCond(x.X, d+1)
+	case *ssa.Call:
+		n := CalleeName(&x.Call)
+		if n == "builtin.len" || n == "builtin.cap" {
+			return pureCond(x.Call.Args[0], d+1)
+		}
+		return false
+	case *ssa.Convert:
+		return pureCond(x.X, d+1)
+	case *ssa.ChangeType:
+		return pureCond(x.X, d+1)
+	}
+	return false
+}
+
+func pureAddr(v ssa.Value, d int) bool {
+	switch a := v.(type) {
+	case *ssa.Parameter:
+		return true
+	case *ssa.Alloc:
+		sts := storesTo(a.Parent(), a)
+		if len(sts) == 1 {
+			_, isP := sts[0].Val.(*ssa.Parameter)
+			return isP
+		}
+		return false
+	case *ssa.FieldAddr:
+		return pureAddr(a.X, d+1)
+	case *ssa.UnOp:
+		if a.Op == token.MUL {
+			return pureAddr(a.X, d+1)
+		}
+	}
+	return false
 }
 
 // phiEnv: the values the tested phis took on the path walked so far (small, immutable).
@@ -1052,4 +1225,49 @@ func returnForDynType(fn *ssa.Function, t types.Type) ssa.Value {
 		}
 	}
 	return nil
+}
+
+// enumPathsTo lists the acyclic block paths from `from` to `to` (bounded).
+func enumPathsTo(from, to *ssa.BasicBlock, max int) [][]*ssa.BasicBlock {
+	var out [][]*ssa.BasicBlock
+	on := map[*ssa.BasicBlock]bool{}
+	var cur []*ssa.BasicBlock
+	var dfs func(b *ssa.BasicBlock)
+	dfs = func(b *ssa.BasicBlock) {
+		if len(out) >= max || on[b] {
+			return
+		}
+		on[b] = true
+		cur = append(cur, b)
+		if b == to {
+			out = append(out, append([]*ssa.BasicBlock(nil), cur...))
+		} else {
+			for k, s := range b.Succs {
+				if !deadEdge(b, k) {
+					dfs(s)
+				}
+			}
+		}
+		cur = cur[:len(cur)-1]
+		on[b] = false
+	}
+	dfs(from)
+	return out
+}
+
+// pathFeasible: the block path takes no branch that the remembered phi values decide otherwise.
+func pathFeasible(path []*ssa.BasicBlock) bool {
+	if len(path) == 0 {
+		return true
+	}
+	tested := testedPhis(path[0].Parent())
+	var env phiEnv
+	for i := 0; i+1 < len(path); i++ {
+		b, next := path[i], path[i+1]
+		if dec := branchDecision(b, env); dec >= 0 && dec < len(b.Succs) && b.Succs[dec] != next {
+			return false
+		}
+		env = env.enter(b, next, tested)
+	}
+	return true
 }
